@@ -81,6 +81,15 @@ CLAIMED["C09"] = _entry(
     "static analysis: abstract interpretation over a finite predicate domain (size length x compared attribute values), reaching definitions, helper inlining, linear canonical forms; cols/rows unit inference",
 )
 
+CLAIMED["C16"] = _entry(
+    "Static analysis decides the structural discipline of the monitored lists: every in-place mutator of list (enumerated from the interpreter's list type) is wrapped and, where it can move "
+    "the focus, overridden with focus-compute -> single super() call with the same arguments -> focus store (no focus store before the list call, one wrapped call per path); the wrapper "
+    "fires _modified() only after a successful call; the focus setter validates type and range, fires the focus-changed callback only on change and before the store, and pins _focus to 0 "
+    "for the empty list; ranges over a slice triple are bounded by its stop. The index arithmetic itself and equality with a built-in list over all histories are not decided (level 'other').",
+    "DESIGN.md section 3, C16; engines E12 (COVER), E6 (ORDER/PASS)",
+    "static analysis: exhaustiveness against the interpreter's list type, CFG dominance/must-pass and call-count rules per override, guard dominance in the focus setter",
+)
+
 _PENDING = "check not built yet in this session (planned per DESIGN.md section 3); listed here until its static rules exist and pass on the pinned tree"
 NOT_APPLICABLE = {pid: _PENDING for pid in [f"C{i:02d}" for i in range(1, 21)] if pid not in CLAIMED and pid != "C07"}
 NOT_APPLICABLE["C07"] = (
